@@ -26,14 +26,94 @@ Fixpoint eval_args (l : list arg) : M1 (list N) :=
 Record racc : Type := mkAcc {
   ra_ints : list (list N);            (* serialised interrupts, chronological *)
   ra_segs : list (list (list N));     (* log segments returned with each interrupt *)
-  ra_changed : list bool }.
+  ra_changed : list bool;
+  ra_nested : list (N * N * bool) }.  (* class, remaining energy, lower-bound flag of nested runs *)
+
+(** What the environment does while a contract is interrupted. *)
+Record nested : Type := mkNested {    (* a re-entrant call on a fresh generation of the same state *)
+  n_param : list N; n_data : list (N * list N); n_calls : list call; n_ret : N;
+  n_commit : bool; n_energy : N }.
+Record rsp : Type := mkRsp {
+  r_resp : response;
+  r_setlock : option (list N * N);    (* verification hook: set the reference count of a lock *)
+  r_pad : N;                          (* verification hook: pad the parameter list to this length *)
+  r_nested : option nested }.
 
 Definition default_response : response := RespOk 2387225703656530728 None false.
+Definition default_rsp : rsp := mkRsp default_response None 0 None.
 
 Definition store_result (i w v : N) : M1 unit :=
   if w =? 0 then ret tt else mstore (8 * i) (le_bytes (N.to_nat w) v).
 
-Fixpoint run_calls (calls : list call) (i : N) (resps : list response) (acc : racc) : M1 racc :=
+Fixpoint apply_data (m : memory) (segs : list (N * list N)) : memory :=
+  match segs with
+  | [] => m
+  | (off, bs) :: t => match mem_store m off bs with Some m' => apply_data m' t | None => apply_data m t end
+  end.
+
+(** calls of a nested run: an interrupt inside it is not handled (treated as failure) *)
+Fixpoint run_calls_inner (calls : list call) (i : N) : M1 unit :=
+  match calls with
+  | [] => ret tt
+  | c :: rest =>
+      args <- eval_args (c_args c) ;;
+      r <- match c_fn c with
+           | F0 f => val (call_v0 f args)
+           | F1 f => call_v1 f args
+           end ;;
+      match r with
+      | HVal None => run_calls_inner rest (i + 1)
+      | HVal (Some v) => store_result i (c_rw c) v ;;; run_calls_inner rest (i + 1)
+      | HInt _ => trap
+      end
+  end.
+
+Definition set_upd (r : response) (u : bool) : response :=
+  match r with RespOk b d _ => RespOk b d u | RespReject c d _ => RespReject c d u | RespFail n _ => RespFail n u end.
+
+(** `make_fresh_generation`: every entry is read-only (not owned) in the new generation, which has
+    no handles, iterators or locks of its own *)
+Definition fresh_generation (s : istate) : istate :=
+  mkIS 0 (map (fun e => mkEntry (e_key e) (e_val e) false) (is_entries s)) [] [] [] false.
+
+(** run the nested call; on success with [n_commit] the outer state continues on the nested
+    generation (entries and locks of the nested run), otherwise it is rolled back *)
+Definition exec_nested (n : nested) : M1 (bool * (N * N * bool)) :=
+  fun s =>
+    let h := hs s in
+    let x := h_ext h in
+    let ih := with_ext (with_balance (with_actions (with_logs (with_state h []) []) []) (h_balance h))
+                (mkExt [] [n_param n] (fresh_generation (x_is x)) (x_rp x) (x_entrypoint x) [] [] false false) in
+    let ih := mkHost false [] [] [] (n_param n) (h_policy h) (h_limit h) (h_maxparam h) MAX_ACTIVATION_FRAMES
+                (h_slot_time h) (h_origin h) (h_invoker h) (h_owner h) (h_self_index h) (h_self_sub h)
+                (h_balance h) (h_sender h) (h_ext ih) in
+    let '(s', r) := (charge_memory_alloc 1 ;;; run_calls_inner (n_calls n) 0)
+                      (mkSt (n_energy n) (apply_data (mkMem 65536 []) (n_data n)) [] ih) in
+    let cls := match r with
+               | Ok _ => if 2147483648 <=? n_ret n then 1 else 0
+               | Trap => 2 | OutOfEnergy => 3 | Fault => 5 end in
+    let ix := h_ext (hs s') in
+    let res := (cls, energy s', x_lower ix) in
+    if (cls =? 0) && n_commit n then
+      let is0 := x_is x in
+      let is1 := x_is ix in
+      let x' := with_is x (mkIS (is_gen is0) (is_entries is1) (is_emap is0) (is_iters is0) (is_locks is1) (is_changed is0)) in
+      (mkSt (energy s) (mem s) (evs s) (with_ext h x'), Ok (true, res))
+    else (s, Ok (false, res)).
+
+Definition apply_hooks (r : rsp) : M1 unit :=
+  x <- get_x ;;
+  let s := x_is x in
+  let s' := match r_setlock r with
+            | Some (k, c) => mkIS (is_gen s) (is_entries s) (is_emap s) (is_iters s) (lock_set k c (is_locks s)) (is_changed s)
+            | None => s end in
+  set_x (with_is x s').
+Definition apply_pad (r : rsp) : M1 unit :=
+  x <- get_x ;;
+  let len := lenN (x_params x) in
+  if len <? r_pad r then set_x (with_params x (x_params x ++ N.iter (r_pad r - len) (cons []) [])) else ret tt.
+
+Fixpoint run_calls (calls : list call) (i : N) (resps : list rsp) (acc : racc) : M1 racc :=
   match calls with
   | [] => ret acc
   | c :: rest =>
@@ -50,9 +130,17 @@ Fixpoint run_calls (calls : list call) (i : N) (resps : list response) (acc : ra
           let seg := if i_clear int then h_logs h else [] in
           (if i_clear int then set_hs (with_logs h []) else ret tt) ;;;
           s <- get_is ;;
+          let rs := match resps with r :: _ => r | [] => default_rsp end in
+          apply_hooks rs ;;;
+          nres <- match r_nested rs with
+                  | Some n => x <- exec_nested n ;; ret (Some x)
+                  | None => ret None
+                  end ;;
+          apply_pad rs ;;;
+          let resp := match nres with Some (u, _) => set_upd (r_resp rs) u | None => r_resp rs end in
           let acc' := mkAcc (ra_ints acc ++ [i_bytes int]) (ra_segs acc ++ [seg])
-                            (ra_changed acc ++ [is_changed s]) in
-          let resp := match resps with r :: _ => r | [] => default_response end in
+                            (ra_changed acc ++ [is_changed s])
+                            (ra_nested acc ++ match nres with Some (_, x) => [x] | None => [] end) in
           v <- resume resp ;;
           store_result i 8 v ;;;
           run_calls rest (i + 1) (tl resps) acc'
@@ -65,12 +153,6 @@ Definition runN (n s d : N) : list N :=
                           (s mod 256, []))) [].
 
 (** *** initial configuration *)
-Fixpoint apply_data (m : memory) (segs : list (N * list N)) : memory :=
-  match segs with
-  | [] => m
-  | (off, bs) :: t => match mem_store m off bs with Some m' => apply_data m' t | None => apply_data m t end
-  end.
-
 Definition addr_bytes (base : N) : list N := map (fun i => base + N.of_nat i) (seq 0 32).
 
 Record script : Type := mkScript {
@@ -79,7 +161,7 @@ Record script : Type := mkScript {
   s_state0 : list N; s_kv0 : list (list N * list N);
   s_data : list (N * list N);
   s_calls : list call; s_ret : N;                    (* return code as u32 bit pattern *)
-  s_resps : list response; s_digests : list (list N) }.
+  s_resps : list rsp; s_digests : list (list N) }.
 
 Definition sender_bytes (acc : bool) : list N :=
   if acc then 0 :: addr_bytes 112
@@ -105,7 +187,7 @@ Definition init_st (sc : script) (e : N) : st H1 :=
 
 Definition run_body (sc : script) : M1 racc :=
   charge_memory_alloc (s_pages sc) ;;;
-  run_calls (s_calls sc) 0 (s_resps sc) (mkAcc [] [] []).
+  run_calls (s_calls sc) 0 (s_resps sc) (mkAcc [] [] [] []).
 
 (** *** outcome *)
 Record outcome : Type := mkOut {
@@ -121,6 +203,7 @@ Record outcome : Type := mkOut {
   o_changed : list bool;
   o_hashes : list (N * list N);
   o_unspec : bool; o_lower : bool;
+  o_nested : list (N * N * bool);
   o_events : list event }.
 
 Definition live_kv (s : istate) : list (list N * list N) :=
@@ -149,12 +232,12 @@ Definition run_script (sc : script) (e : N) : outcome :=
           (ra_segs acc ++ [h_logs h]) (x_rv x)
           (if s_ver1 sc then [] else firstnN (s_ret sc + 1) (h_actions h))
           (ra_ints acc) (ra_changed acc ++ [is_changed (x_is x)])
-          (rev (x_hashlog x)) (x_unspec x) (x_lower x) (rev (evs s)) in
+          (rev (x_hashlog x)) (x_unspec x) (x_lower x) (ra_nested acc) (rev (evs s)) in
   match r with
   | Ok acc => mk (classify sc h) acc
-  | Trap => mk 2 (mkAcc [] [] [])
-  | OutOfEnergy => mk 3 (mkAcc [] [] [])
-  | Fault => mk 5 (mkAcc [] [] [])
+  | Trap => mk 2 (mkAcc [] [] [] [])
+  | OutOfEnergy => mk 3 (mkAcc [] [] [] [])
+  | Fault => mk 5 (mkAcc [] [] [] [])
   end.
 
 (** a compact view for printing: byte strings are packed into 32-byte little-endian words
